@@ -273,7 +273,7 @@ func report(p *Property, tier string, seed int, res *runResult, start time.Time,
 				"distinct_nontrivial counts distinct keys over all configurations, excluding obligations a rule marks trivially true",
 			"samples":            samples,
 			"checker_cmd":        fmt.Sprintf("bin/specvet -property %s -tier %s", p.ID, tier),
-			"trusted_base":       []string{"go/types (Go 1.23.5)", "golang.org/x/tools v0.29.0 go/packages, go/ssa, go/cfg", "documented semantics of encoding/json, encoding/gob, swag, jsonpointer, jsonreference", "schemas/v2/schema.json and schemas/jsonschema-draft-04.json as vocabulary oracle"},
+			"trusted_base":       []string{"go/types (Go 1.23.5)", "golang.org/x/tools v0.29.0 go/packages, go/cfg, go/types/typeutil", "documented semantics of encoding/json, encoding/gob, swag, jsonpointer, jsonreference", "schemas/v2/schema.json and schemas/jsonschema-draft-04.json as vocabulary oracle"},
 			"rules":              ruleSummary,
 			"configurations":     res.configs,
 			"functions_analysed": fns,
